@@ -59,6 +59,10 @@ CHECKS = {
          "exhaustive enumeration of pairs of member orders (all pairs of duplicate-free sequences over a k-symbol alphabet, for fields, methods and interfaces), all subsets of a jar-entry menu and single-difference class contents through the real dukebox::merge::merge",
          "Member-order space: all 65² (thorough 326²) pairs of duplicate-free sequences of length ≤k over k symbols as the field / method / interface lists of a class on the two sides: every member exactly once, one-sided ones carry the side annotation, shared ones none, both relative orders preserved whenever compatible. Entry space: every subset of a 14-item (thorough 20) entry menu (one-sided / identical / differing classes, resources, directories, manifests, signature files, bundled server libraries) in two entry orders and two jar representations: exactly-once, drops as stated, identical classes byte-identical, one-sided classes marked. Content space: 41 single-difference aspects of a differing class; the rest of a merged class must come from one of the sides (judged through duke's own read/write so its losses cancel).",
          "DESIGN.md §2 C13", TRUST + "; the zip crate; cfmodel"),
+ "C15": ("exploration",
+         "exhaustive product enumeration of bridge-pattern jars (hierarchy × flags × call sets × per-position signature relations × mapping states) through the real specialized_methods code (compiled from /repo/src via a #[path] shim), against the statement's predicate and outcome",
+         "Jars of generated classes over a depth-3 hierarchy (parents inside the main jar, in a library jar, or nowhere; optional interface) with one candidate method in every combination of {synthetic, bridge flag, private/static/final} × 12 call sets (none, one target, same twice, two targets, indy only, array owner, …) × 19 signature relations per position (equal, erased to Object / in-jar ancestor / non-ancestor, primitive mismatch, arity ±1, void vs value) × mapping states (bridge named directly / only in a super type one or two levels up / nowhere; delegate entry named, unnamed, absent; class absent; identity and renaming official→intermediary sets): get_specialized_methods must report exactly the pairs the statement's predicate gives, and add_specialized_methods_to_mappings must give the delegate, inside the bridge's class, the name the mappings give the bridge through inheritance, every other entry unchanged (full mapping-set equality). Where the statement is silent both outcomes are accepted and counted.",
+         "DESIGN.md §2 C15", TRUST + "; fbrshim's thin wrappers around the #[path]-included module; cfmodel assembler"),
  "C17": ("model_checking",
          "explicit-state BFS (stateright) over visitor decision sets (deviation-bounded: interest flags off, members declined, visit_code→None) per class, and over concatenated class streams × visitor kinds, with the real read_class_multi / ClassFile::accept as transition function",
          "Masks graph: a state is (class, set of deviating visitor answers); deviations are each of the 51 interest flags over five levels, declining the class, one field / method / record component, or visit_code()=None for one method; all sets with ≤2 (thorough ≤3) deviations plus 9 all-off corners, for kitchen sinks in 3 attribute orders and the 357-class corpus. Every state runs the real reader on the class followed by junk bytes, and replays the full tree into the same visitor: received items must equal the full read filtered by the answers, in order; items after a declined one intact; cursor exactly at the class end; read result == replay result. Streams graph: concatenations of 1..3 classes × 9 visitor kinds per read: after the k-th read the cursor sits at the k-th boundary and class k was delivered.",
